@@ -317,6 +317,7 @@ def run_check(prop, args, wdir):
     violations = []
     known_hit = []
     seen_classes = set()
+    skipped_crashes = []
     # oracle failures
     for fl in sorted(failures, key=lambda f: f["run"]):
         cls = fl["violation"]["class"]
@@ -335,7 +336,14 @@ def run_check(prop, args, wdir):
         else:
             violations.append((fcls, rpath, rf))
     # crashes
+    crash_done = 0
     for run, errp in sorted(crashes):
+        if crash_done >= 3 and any(c.startswith(prop + "/crash") for c in seen_classes):
+            # frequent crashes (every worker restart hits one): the first few are minimised and
+            # verified, the rest only counted - the check must end in bounded time
+            skipped_crashes.append(run)
+            continue
+        crash_done += 1
         tape, err = record_crash_tape(binp, wdir, prop, seed, run)
         if tape is None:
             infra.append("worker crash at run %d: %s; stderr tail: %s" % (run, err, open(errp).read()[-3000:]))
@@ -383,6 +391,7 @@ def run_check(prop, args, wdir):
         "known_finding_runs": {k: v[1] for k, v in soft_known.items()},
         "violation_classes": [c for c, _, _ in violations],
         "infra": infra,
+        "crashes_not_minimised": skipped_crashes,
     }
     ev = {
         "property_id": prop, "tier": tier, "seed": seed, "level": meta.get("level", "exploration"),
